@@ -1,0 +1,9 @@
+//go:build !verif
+
+package p2p
+
+import "time"
+
+const simEnabled = false
+
+func simNow() (time.Time, bool) { return time.Time{}, false }
